@@ -1399,3 +1399,9 @@ mod tests {
         assert!(matches!(result, Err(DrawError::TooManyPoints(_))));
     }
 }
+
+/// Verification hooks (see `hint::verif`). Not part of the public API.
+#[cfg(googlefonts_fontations_verif)]
+pub mod verif {
+    pub use super::hint::verif::*;
+}
